@@ -21,3 +21,15 @@ func verifYieldID(site string, id ChunkID) {
 		f(site, id)
 	}
 }
+
+// VerifPar, when set by the verification harness, is called at the instrumented
+// sites of the parallel file chunker (IndexFromFile, pChunker.start, pChunker.syncWith)
+// with the start offset of the worker concerned, the event that has just happened
+// and its values. It lets the harness schedule the goroutines and record event traces.
+var VerifPar func(offset uint64, ev string, a, b uint64, null bool)
+
+func verifPar(c *pChunker, ev string, a, b uint64, null bool) {
+	if f := VerifPar; f != nil {
+		f(c.offset, ev, a, b, null)
+	}
+}
